@@ -41,10 +41,11 @@ impl Subset for Gvar<'_> {
                     return None;
                 }
                 // x is (new gid, old gid): the data is looked up by the old glyph id
-                self.data_for_gid(x.1)
-                    .ok()
-                    .flatten()
-                    .map(|data| data.len() as u32)
+                self.data_for_gid(x.1).ok().flatten().map(|data| {
+                    // with short offsets every glyph's data is padded to an even length
+                    let len = data.len() as u32;
+                    len + (len & 1)
+                })
             })
             .sum();
 
@@ -143,6 +144,12 @@ fn subset_with_offset_type<OffsetType: GvarOffset>(
             s.embed_bytes(glyph_var_data.as_bytes())
                 .map_err(|_| SubsetError::SubsetTableError(Gvar::TAG))?;
             glyph_offset += glyph_var_data.len() as u32;
+            // the short format stores offset / 2: keep every offset even
+            if OffsetType::PAD_TO_EVEN && glyph_offset % 2 == 1 {
+                s.embed(0_u8)
+                    .map_err(|_| SubsetError::SubsetTableError(Gvar::TAG))?;
+                glyph_offset += 1;
+            }
         };
 
         s.copy_assign(start_idx, OffsetType::stored_value(glyph_offset));
@@ -160,16 +167,19 @@ fn subset_with_offset_type<OffsetType: GvarOffset>(
 }
 
 trait GvarOffset: Scalar {
+    const PAD_TO_EVEN: bool;
     fn stored_value(val: u32) -> Self;
 }
 
 impl GvarOffset for u16 {
+    const PAD_TO_EVEN: bool = true;
     fn stored_value(val: u32) -> u16 {
         (val / 2) as u16
     }
 }
 
 impl GvarOffset for u32 {
+    const PAD_TO_EVEN: bool = false;
     fn stored_value(val: u32) -> u32 {
         val
     }
